@@ -303,7 +303,10 @@ MUST_CLOSE_KIND_FLAGS = (
 
 def set_inside_html_tags_re(ctx: "Wtp") -> re.Pattern:
     return re.compile(
-        r"(<(?:" + r"|".join(ctx.allowed_html_tags.keys()) + r")[^><]*>)",
+        # (the name must end where the match says: "<under" is not "<u")
+        r"(<(?:"
+        + r"|".join(ctx.allowed_html_tags.keys())
+        + r")(?![-\w])[^><]*>)",
         re.IGNORECASE,
     )
 
